@@ -72,6 +72,12 @@ def ob_reader(ctx, prefixes, N):
     n = ctx.choose(0, N, 'n')
     tail = sym_bytes(ctx, 'b', n)
     data = mk_seq(tuple(P) + (tuple(tail.el) if n else ()), bytes)
+    return _reader_outcome(ctx, data)
+
+
+def _reader_outcome(ctx, data):
+    from pydiffx.reader import DiffXReader
+    from pydiffx.errors import DiffXParseError
     wit = lambda m: {'api': 'reader', 'data': model_bytes(m, data)}
     try:
         recs = list(DiffXReader(SymStream(data)))
@@ -92,6 +98,12 @@ def ob_dom(ctx, prefixes, N):
     n = ctx.choose(0, N, 'n')
     tail = sym_bytes(ctx, 'b', n)
     data = mk_seq(tuple(P) + (tuple(tail.el) if n else ()), bytes)
+    return _dom_outcome(ctx, data)
+
+
+def _dom_outcome(ctx, data):
+    from pydiffx import DiffX
+    from pydiffx.errors import BaseDiffXError
     wit = lambda m: {'api': 'dom', 'data': model_bytes(m, data)}
     st = SymStream(data)
     try:
@@ -104,6 +116,22 @@ def ob_dom(ctx, prefixes, N):
     except Exception as e:
         return viol('dom-raised:%s' % type(e).__name__, wit(ctx.model()))
     return verdict(ctx, [('stream-closed', st.closed is True)], witness=wit, sample=lambda m: dict(wit(m), outcome=out))
+
+
+def ob_deep(ctx, api, depths):
+    """resource-shaped inputs: metadata whose JSON nests D levels deep (arrays / objects), one symbolic byte at the
+    innermost position.  Whatever the JSON decoder does with that depth (it gives up with RecursionError far below
+    these depths), the reader's contract is the same: records or DiffXParseError"""
+    D = ctx.pick('depth', depths)
+    kind = ctx.pick('nesting', ['array', 'object'])
+    win = sym_bytes(ctx, 'j', 1)
+    if kind == 'array':
+        body = tuple(b'[' * D) + tuple(win.el) + tuple(b']' * D)
+    else:
+        body = tuple(b'{"a":' * D) + tuple(win.el) + tuple(b'}' * D)
+    body = body + (10,)
+    data = mk_seq(tuple(MAIN + b'#.meta: length=%d\n' % len(body)) + body + tuple(b'#.change:\n#..file:\n#...meta: length=3\n{}\n'), bytes)
+    return _reader_outcome(ctx, data) if api == 'reader' else _dom_outcome(ctx, data)
 
 
 def ob_dom_attrs(ctx, N):
@@ -230,6 +258,12 @@ def obligations(tier):
                   stubs=['json.loads on symbolic text: instrumented pure-Python decoder (exact); catalogue fallback flagged'],
                   desc='object-model loading of the utf8 base file with one symbolic byte replacing / inserted at positions',
                   bounds={'window': 1}))
+    depths = [3, 150, 20000] if quick else [3, 40, 150, 1200, 20000, 200000]
+    for api in ('reader', 'dom'):
+        obs.append(Ob('deep-json[%s]' % api, ob_deep, dict(api=api, depths=depths), path_timeout=60,
+                      must_reach=['DiffXReader.iter_sections'],
+                      desc='metadata nested %s levels deep (arrays / objects) with one symbolic byte innermost: the contract '
+                           'holds whatever the JSON decoder does at that depth' % depths, bounds={'depths': depths}))
     obs.append(Ob('dom[attribute-named-options]', ob_dom_attrs, dict(N=1 if quick else 2),
                   must_reach=['DiffXDOMReader.parse'], path_timeout=8,
                   desc='DiffX.from_stream on files whose container headers carry an option named like any attribute '
